@@ -35,7 +35,7 @@ PROBES = ('x1_fired', 'x1_fired_in_unlock_entry', 'x1_not_reached', 'exit_by_bod
           'foreign_s2k_simple', 'foreign_s2k_salted', 'foreign_gnu_dummy', 'foreign_mixed', 'export_import_protected', 'copy_key',
           'second_unlock_ok', 'graph_objects_walked', 'different_subkey_passphrase', 'passphrase_bytes', 'rsa', 'dsa', 'ecdsa', 'eddsa')
 
-PASSES = ['hunter2', 'pässwörd ☃', 'x' * 120, 'p w', 'QwertyUiop']
+PASSES = ['hunter2', 'pässwörd ☃', 'x' * 120, 'p w', 'QwertyUiop', 'cafe\u0301 \u1112\u1161\u11ab', ' padded with blanks ', 'tab\tinside\n']
 INNER = ['sign', 'sign', 'decrypt', 'certify', 'export', 'derive_pub', 'reprotect', 'add_subkey', 'nested', 'verify_state', 'nested_wrong']
 
 
